@@ -49,10 +49,30 @@ func collectRuntimeSegments(p *Prog) ([]rtSegment, *ast.FuncDecl) {
 		})
 		return out
 	}
+	// local booleans defined once from feature tests (supportsForOf := !features.Has(compat.ForOf))
+	boolDefs := map[string]ast.Expr{}
+	assigned := map[string]int{}
+	ast.Inspect(src.Body, func(n ast.Node) bool {
+		if as, ok := n.(*ast.AssignStmt); ok {
+			for i, lhs := range as.Lhs {
+				if id, ok := lhs.(*ast.Ident); ok {
+					assigned[id.Name]++
+					if as.Tok == token.DEFINE && len(as.Lhs) == len(as.Rhs) {
+						boolDefs[id.Name] = as.Rhs[i]
+					}
+				}
+			}
+		}
+		return true
+	})
 	// condFeatures: for `!Has(A) && !Has(B)` returns supported={A,B}; for `Has(A)` returns lacks={A}
 	var condFeatures func(e ast.Expr, neg bool, sup, lack map[string]bool) bool
 	condFeatures = func(e ast.Expr, neg bool, sup, lack map[string]bool) bool {
 		switch x := e.(type) {
+		case *ast.Ident:
+			if def, ok := boolDefs[x.Name]; ok && assigned[x.Name] == 1 {
+				return condFeatures(def, neg, sup, lack)
+			}
 		case *ast.ParenExpr:
 			return condFeatures(x.X, neg, sup, lack)
 		case *ast.UnaryExpr:
